@@ -11,6 +11,8 @@ pub fn line_for(kind: &str, depth: usize) -> String {
         "index" | "ana-index" => format!("PRINT {}1{}", "A(".repeat(depth), ")".repeat(depth)),
         "ifthen" | "ana-ifthen" => format!("{}PRINT 1", "IF 1 THEN ".repeat(depth)),
         "not" => format!("PRINT {}1{}", "NOT (".repeat(depth), ")".repeat(depth)),
+        "unary" => format!("PRINT {}1", "-".repeat(depth)),
+        "notchain" => format!("X={}1", "NOT ".repeat(depth)),
         "dimsubs" => format!("DIM B({})", vec!["10"; depth].join(",")),
         "implicit" => format!("PRINT B({})", vec!["1"; depth].join(",")),
         _ => String::new(),
